@@ -185,7 +185,8 @@ Record pstate := {
   ps_cur : option table; ps_count : Z;
   ps_ins : list intx; ps_outs : list outtx; ps_intras : list intratx;   (* insertion order *)
   ps_art : list outtx; ps_counter : Z;
-  ps_meta : list (Z * arg * arg) }.                 (* row id -> (unique_id argument, notes argument) *)
+  ps_meta : list (Z * arg * arg);                   (* row id -> (unique_id argument, notes argument) *)
+  ps_seen : list table }.                           (* table types begun so far (read only when the code remembers them) *)
 
 Definition table_of_cell (c : cell) : option table :=
   match c with
@@ -220,7 +221,7 @@ Definition has_row_in (r : Z) (l : list intx) : bool := existsb (fun a => i_row 
 Definition upd_state (s : pstate) (ins : list intx) (outs : list outtx) (intras : list intratx) (art : list outtx)
   (counter : Z) (meta : list (Z * arg * arg)) : pstate :=
   {| ps_cur := ps_cur s; ps_count := ps_count s; ps_ins := ins; ps_outs := outs; ps_intras := intras;
-     ps_art := art; ps_counter := counter; ps_meta := meta |}.
+     ps_art := art; ps_counter := counter; ps_meta := meta; ps_seen := ps_seen s |}.
 
 Definition data_row (cfg : pcfg) (asset : str) (s : pstate) (t : table) (rowno : Z) (row : list cell) : result pstate :=
   match t with
@@ -256,10 +257,22 @@ Definition data_row (cfg : pcfg) (asset : str) (s : pstate) (t : table) (rowno :
 
 Definition with_cur (s : pstate) (cur : option table) (count : Z) : pstate :=
   {| ps_cur := cur; ps_count := count; ps_ins := ps_ins s; ps_outs := ps_outs s; ps_intras := ps_intras s;
-     ps_art := ps_art s; ps_counter := ps_counter s; ps_meta := ps_meta s |}.
+     ps_art := ps_art s; ps_counter := ps_counter s; ps_meta := ps_meta s; ps_seen := ps_seen s |}.
+
+Definition table_eqb (a b : table) : bool :=
+  match a, b with TabIn, TabIn | TabOut, TabOut | TabIntra, TabIntra => true | _, _ => false end.
+Definition seen_has (t : table) (l : list table) : bool := existsb (table_eqb t) l.
+Definition begin_table (s : pstate) (t : table) : pstate :=
+  {| ps_cur := Some t; ps_count := 1; ps_ins := ps_ins s; ps_outs := ps_outs s; ps_intras := ps_intras s;
+     ps_art := ps_art s; ps_counter := ps_counter s; ps_meta := ps_meta s; ps_seen := t :: ps_seen s |}.
+
+(** "Found more than one <table> symbol": the code either remembers the table types it has begun ([remember] = true) or
+    tests whether the transaction set of that type is non-empty (false: a repeat after an EMPTY table goes unnoticed) *)
+Definition repeated_table (remember : bool) (s : pstate) (t : table) : bool :=
+  if remember then seen_has t (ps_seen s) else negb (set_empty s t).
 
 (** one sheet row (rowno is 1-based) *)
-Definition row_step (cfg : pcfg) (asset : str) (s : pstate) (rowno : Z) (row : list cell) : result pstate :=
+Definition row_step_gen (remember : bool) (cfg : pcfg) (asset : str) (s : pstate) (rowno : Z) (row : list cell) : result pstate :=
   let c0 := nth 0 row CEmpty in
   let begin_ := table_of_cell c0 in
   let bad :=
@@ -269,7 +282,7 @@ Definition row_step (cfg : pcfg) (asset : str) (s : pstate) (rowno : Z) (row : l
     end in
   if bad then Err EValue else
   match begin_ with
-  | Some t => if negb (set_empty s t) then Err EValue else Ok (with_cur s (Some t) 1)
+  | Some t => if repeated_table remember s t then Err EValue else Ok (begin_table s t)
   | None =>
     if is_table_end c0 then Ok (with_cur s None (ps_count s + 1)) else
     match ps_cur s with
@@ -285,14 +298,18 @@ Definition row_step (cfg : pcfg) (asset : str) (s : pstate) (rowno : Z) (row : l
     end
   end.
 
-Fixpoint parse_rows (cfg : pcfg) (asset : str) (s : pstate) (rowno : Z) (rows : list (list cell)) : result pstate :=
+Fixpoint parse_rows_gen (remember : bool) (cfg : pcfg) (asset : str) (s : pstate) (rowno : Z) (rows : list (list cell)) : result pstate :=
   match rows with
   | [] => Ok s
-  | r :: t => match row_step cfg asset s rowno r with
+  | r :: t => match row_step_gen remember cfg asset s rowno r with
               | Err e => Err e
-              | Ok s' => parse_rows cfg asset s' (rowno + 1) t
+              | Ok s' => parse_rows_gen remember cfg asset s' (rowno + 1) t
               end
   end.
+
+(** the behaviour of the code as it is: the flag is read from the source by the translator *)
+Definition row_step := row_step_gen gen_parser_remembers_tables.
+Definition parse_rows := parse_rows_gen gen_parser_remembers_tables.
 
 Record parsed := { pa_ins : list intx; pa_outs : list outtx; pa_intras : list intratx; pa_counter : Z;
                    pa_meta : list (Z * arg * arg) }.
@@ -302,12 +319,12 @@ Definition has_dupZ (l : list Z) : bool :=
 
 (** parse_ods for one asset; [counter] is the configuration's artificial-id counter (shared by the
     assets processed in one run) *)
-Definition parse_sheet (cfg : pcfg) (asset : str) (counter : Z) (rows : list (list cell)) : result parsed :=
+Definition parse_sheet_gen (remember : bool) (cfg : pcfg) (asset : str) (counter : Z) (rows : list (list cell)) : result parsed :=
   match str_index asset (pc_assets cfg) 0 with
   | None => Err EValue
   | Some _ =>
-    match parse_rows cfg asset {| ps_cur := None; ps_count := 0; ps_ins := []; ps_outs := []; ps_intras := [];
-                                  ps_art := []; ps_counter := counter; ps_meta := [] |} 1 rows with
+    match parse_rows_gen remember cfg asset {| ps_cur := None; ps_count := 0; ps_ins := []; ps_outs := []; ps_intras := [];
+                                  ps_art := []; ps_counter := counter; ps_meta := []; ps_seen := [] |} 1 rows with
     | Err e => Err e
     | Ok s =>
       match ps_cur s with
@@ -321,3 +338,5 @@ Definition parse_sheet (cfg : pcfg) (asset : str) (counter : Z) (rows : list (li
       end
     end
   end.
+
+Definition parse_sheet := parse_sheet_gen gen_parser_remembers_tables.
